@@ -7,6 +7,7 @@ mod c06;
 mod c07;
 mod c08;
 mod c10;
+mod c11;
 mod c12;
 mod genfilter;
 mod genlua;
@@ -68,6 +69,7 @@ fn main() {
         "c07" => c07::generate(a.seed, a.n, a.thorough).write(&a.out, a.shards, a.only),
         "c08" => c08::generate(a.seed, a.n, a.thorough).write(&a.out, a.shards, a.only),
         "c10" => c10::generate(a.seed, a.n, a.thorough).write(&a.out, a.shards, a.only),
+        "c11" => c11::generate(a.seed, a.n, a.thorough).write(&a.out, a.shards, a.only),
         "c12" => c12::generate(a.seed, a.n, a.thorough).write(&a.out, a.shards, a.only),
         "c13" => meta::generate_c13(a.seed, a.n, a.thorough).write(&a.out, a.shards, a.only),
         "c14" => meta::generate_c14(a.seed, a.n, a.thorough).write(&a.out, a.shards, a.only),
